@@ -64,6 +64,8 @@ async fn run_lines(lines: &[String], work: &PathBuf, stats: &mut Stats) -> Vec<S
                 let r = match k {
                     "rmut" => b.op_rmut(&kv),
                     "robs" => b.op_robs(&kv),
+                    "pobs" => b.op_pobs(&kv).await,
+                    "pdump" => b.op_pdump().await,
                     "new" => b.op_new(&kv),
                     "upd" => b.op_upd(&kv),
                     "nest" => b.op_nest(&kv),
@@ -272,6 +274,7 @@ fn main() {
             match prop.as_str() {
                 "C10" => gen::gen_c10(a.u64_or("seed", 1), a.usize_or("n", 100), &out, a.get("long").is_some()),
                 "C01" => gen::gen_c01(a.u64_or("seed", 1), a.usize_or("n", 100), &out, a.get("long").is_some()),
+                "C12" => gen::gen_c12(a.u64_or("seed", 1), a.usize_or("n", 100), &out, a.get("long").is_some()),
                 _ => {
                     eprintln!("unknown --prop {}", prop);
                     std::process::exit(2);
